@@ -6,6 +6,7 @@ import (
 	"fmt"
 	"io"
 	"strings"
+	"unsafe"
 
 	seccomp "github.com/elastic/go-seccomp-bpf"
 	"github.com/elastic/go-seccomp-bpf/arch"
@@ -46,6 +47,18 @@ type Policy struct {
 	// groups out as adjacent windows of one backing array each (spare capacity behind every window
 	// but the last): what a caller gets who slices one table into groups. Same policy, same request.
 	Shared bool
+	// NativeOrder makes Compile leave the library's own byte order in place (no VerifSetNativeEndian call):
+	// what production code gets. Endian must then be HostEndian().
+	NativeOrder bool
+}
+
+// HostEndian is the byte order of the machine this process runs on ("le" | "be").
+func HostEndian() string {
+	var x uint16 = 1
+	if *(*byte)(unsafe.Pointer(&x)) == 1 {
+		return "le"
+	}
+	return "be"
 }
 
 func Hex(s string) string {
@@ -89,6 +102,15 @@ func (p *Policy) Body() string {
 
 func (p *Policy) Request() string {
 	return fmt.Sprintf("P %s %s %s", p.Arch, p.Endian, p.Body())
+}
+
+// WireRequest is Request with the verb PS when the value is to be laid out in shared arrays (what the
+// harness' own children and replays parse; the model only ever sees Request).
+func (p *Policy) WireRequest() string {
+	if p.Shared {
+		return "PS" + strings.TrimPrefix(p.Request(), "P")
+	}
+	return p.Request()
 }
 
 // ToGo builds the library's policy value.
@@ -144,12 +166,32 @@ func (p *Policy) toGoShared() seccomp.Policy {
 				if len(nc.Conds) > 0 {
 					sg.NamesWithCondtions[k].Conditions = conds[ci : ci+len(nc.Conds)]
 					ci += len(nc.Conds)
+					// an entry that repeats an earlier list of its group refers to the very same slice
+					// (a caller who builds the list once and uses it twice)
+					for j := 0; j < k; j++ {
+						if sameConds(g.WithConds[j].Conds, nc.Conds) {
+							sg.NamesWithCondtions[k].Conditions = sg.NamesWithCondtions[j].Conditions
+							break
+						}
+					}
 				}
 			}
 		}
 		out.Syscalls = append(out.Syscalls, sg)
 	}
 	return out
+}
+
+func sameConds(a, b []Cond) bool {
+	if len(a) != len(b) {
+		return false
+	}
+	for i := range a {
+		if a[i] != b[i] {
+			return false
+		}
+	}
+	return true
 }
 
 var archByName = map[string]*arch.Info{
@@ -235,6 +277,9 @@ func (p *Policy) Compile() (reply string, insts []bpf.Instruction) {
 			CompileGo(&gp, p.WarmArch, p.Endian)
 		}()
 	}
+	if p.NativeOrder {
+		return CompileGo(&gp, p.Arch, "native")
+	}
 	return CompileGo(&gp, p.Arch, p.Endian)
 }
 
@@ -245,8 +290,10 @@ func CompileGo(gp *seccomp.Policy, archName, endian string) (string, []bpf.Instr
 		return "ERR harness-unknown-arch", nil
 	}
 	seccomp.VerifSetArch(gp, info)
-	prev := seccomp.VerifSetNativeEndian(order(endian))
-	defer seccomp.VerifSetNativeEndian(prev)
+	if endian != "native" { // "native": the library's own order, untouched
+		prev := seccomp.VerifSetNativeEndian(order(endian))
+		defer seccomp.VerifSetNativeEndian(prev)
+	}
 	insts, err := gp.Assemble()
 	if err != nil {
 		if insts != nil {
